@@ -12,8 +12,8 @@
 
    Not modelled: type tokens and casts (the expression parser sees identifiers), new/delete, cuda calls,
    lambdas, the line wrapping of long call arguments (callNode.cpp:66-110), error messages.
-   `c15fix` switches the repair of fixes/C15-1.patch (a blank between two left-unary operators that
-   would otherwise lex as one operator). *)
+   `c15fix` switches the repairs of fixes/C15-1.patch (a blank between two left-unary operators that
+   would otherwise lex as one operator) and fixes/C15-2.patch (sizeof(x) no longer prints as sizeof((x))). *)
 From Coq Require Import List ZArith Bool.
 From OV.C12 Require Import OpDefs Model.
 From OV.gen Require Import C12_OpTable.
@@ -393,7 +393,12 @@ Fixpoint print (e : expr) : list Z :=
   | ECall f a => print f ++ [40] ++ print a ++ [41]
   | ESub a i => print a ++ [91] ++ print i ++ [93]
   | ETern c a b => print c ++ [32; 63; 32] ++ print a ++ [32; 58; 32] ++ print b
-  | ESizeof v => [115; 105; 122; 101; 111; 102; 40] ++ print v ++ [41]
+  | ESizeof v =>
+    match v with
+    | EParen _ => if c15fix then [115; 105; 122; 101; 111; 102] ++ print v          (* fixes/C15-2.patch *)
+                  else [115; 105; 122; 101; 111; 102; 40] ++ print v ++ [41]
+    | _ => [115; 105; 122; 101; 111; 102; 40] ++ print v ++ [41]
+    end
   | EThrow v => [116; 104; 114; 111; 119] ++ match v with EEmpty => [] | _ => [32] ++ print v end
   | ETuple a => [123] ++ print a ++ [125]
   | EEmpty => []
